@@ -27,6 +27,16 @@ pub struct MaintainMessagesCommand {
     archive_messages: bool,
 }
 
+#[cfg(feature = "iggy_verif")]
+impl MaintainMessagesCommand {
+    pub(crate) fn verif_new(clean_messages: bool, archive_messages: bool) -> Self {
+        Self {
+            clean_messages,
+            archive_messages,
+        }
+    }
+}
+
 #[derive(Debug, Default, Clone)]
 pub struct MaintainMessagesExecutor;
 
